@@ -4,6 +4,7 @@ CONSTANTS
   Vals <- TinyVals
   Dflts <- SomeDflts
   Keys = {"a", "b"}
+  PathKeys <- NoPaths
   MaxHandles = 3
   MaxLen = 2
   Ops <- AllOps
